@@ -4,6 +4,7 @@
   read back — after the fix in `reader/driver.rs::get_attribute_value` — with `unescape`, falling
   back to the raw text when `unescape` fails.
 -/
+import Umya.Model.Xml
 namespace Umya.XmlEsc
 
 /-- quick-xml `escape`: `< > & ' "` (what the writer did before the carriage-return fix, kept for
@@ -96,8 +97,21 @@ def unescGo : St → List Char → Option (List Char)
 
 def unescape (s : List Char) : Option (List Char) := unescGo .out s
 
-/-- what `get_attribute` returns for a raw attribute value (after the fix) -/
-def attrRead (raw : List Char) : List Char := (unescape raw).getD raw
+/-- `get_attribute_value`, first half: a literal CR LF becomes one blank, then every literal tab,
+    line feed and carriage return becomes a blank (XML 1.0 sections 2.11 and 3.3.3); done on the raw
+    value, so `&#9;` `&#10;` `&#13;` are not touched -/
+def attrNorm : List Char → List Char
+  | [] => []
+  | '\r' :: '\n' :: r => ' ' :: attrNorm r
+  | c :: r => (if c = '\t' ∨ c = '\n' ∨ c = '\r' then ' ' else c) :: attrNorm r
+
+/-- what `get_attribute` returns for a raw attribute value (after the fixes): white space
+    normalised, references resolved, the normalised raw text when `unescape` fails -/
+def attrRead (raw : List Char) : List Char := (unescape (attrNorm raw)).getD (attrNorm raw)
+
+/-- what `unescape_text` returns for raw character data (after the fix): a literal CR LF / CR is a
+    line feed, then references are resolved; `none` = the `unwrap` panics -/
+def textRead (raw : List Char) : Option (List Char) := unescape (Umya.Xml.normEol raw)
 
 /-- what `write_start_tag` puts between the quotes of an attribute -/
 def attrWrite (s : List Char) : List Char := attrEscape s
